@@ -23,8 +23,10 @@ func profileKnobs(profile string) knobs {
 	case "c02":
 		k.pCancel, k.pDeadline, k.pAdvance, k.pCut = 0, 0, 0, 0
 		k.pErr, k.pPlainErr, k.pExtraResp = 0.75, 0.2, 0.03
+		k.pMismatch = 0.06
 	case "c02f":
 		k.pErr, k.pPlainErr, k.pCut, k.pCancel, k.pUnenc = 0.6, 0.15, 0.5, 0.2, 0.1
+		k.pMismatch = 0.06
 	case "c03":
 		k.pMD, k.pHdrCalls, k.pCancel, k.pCreds = 0.95, 0.7, 0.2, 0.25
 	case "c04":
